@@ -5,7 +5,7 @@ binary polynomials are decimal integers.  Answers: list / integer / `True|False`
 exception class name / `nofuel` / `bad-op`.
 
 List ops (first argument p):  neg add sub mul sq lshift rshift divmod mod floordiv monic monicinv gcd gcdext
-  invert powmod(p a n m|N) irr nextirr(p fuel a) findirr(p d fuel) toint fromint(p n) eval(p a x) fromlist(a)
+  invert powmod(p a n m|N) irr xgf(p a) nextirr(p fuel a) findirr(p d fuel) toint fromint(p n) eval(p a x) fromlist(a)
   lt(a b) degree(a) terms(a) wf(p a)
 Bitmask ops (prefix `b.`), same names; plus `b.tolist`, `b.fromlist`.
 -/
@@ -67,6 +67,9 @@ def stepList (op : String) (args : List String) : Option String :=
       let p ← N p; let a ← P a; let n ← Z n; let m ← PM m
       pure (showE showP (GFpX.powmod p a n m))
   | "irr", [p, a] => do let p ← N p; let a ← P a; pure (showB (GFpX.isIrreducible p a))
+  | "xgf", [p, a] => do
+      let p ← N p; let a ← P a
+      pure (showE (fun r => toString r.1 ++ "|" ++ toString r.2) (GFpX.xGF p a))
   | "nextirr", [p, f, a] => do
       let p ← N p; let f ← N f; let a ← P a
       pure (showO showP (GFpX.nextIrreducible p f a))
@@ -107,6 +110,9 @@ def stepBin (op : String) (args : List String) : Option String :=
       let a ← N a; let n ← Z n; let m ← NM m
       pure (showE toString (BinPoly.powmod a n m))
   | "irr", [a] => do let a ← N a; pure (showB (BinPoly.isIrreducible a))
+  | "xgf", [a] => do
+      let a ← N a
+      pure (showE (fun r => toString r.1 ++ "|" ++ toString r.2) (BinPoly.xGF a))
   | "nextirr", [f, a] => do let f ← N f; let a ← N a; pure (showO toString (BinPoly.nextIrreducible f a))
   | "findirr", [d, f] => do let d ← N d; let f ← N f; pure (showO toString (BinPoly.findIrreducible d f))
   | "toint", [a] => do let a ← N a; pure (toString (BinPoly.toInt a))
